@@ -169,6 +169,26 @@ def build_source(ctx, rng, kind, idx):
             set_mask(ds, m)
             ds = dclab.new_dataset(ds)
             closers.append(ds)
+        if rng.random() < 0.5 and len(ds) >= 3:
+            # history on the hierarchy before the export: a manual exclusion in the youngest
+            # member, then a filter setting of its parent changes (not applied there), then
+            # the youngest member is refreshed
+            import dclab.definitions as dfn_
+            k_ = int(rng.integers(0, len(ds)))
+            ds.filter.manual[k_] = False
+            ds.apply_filter()
+            par = ds.hparent
+            cand = [f for f in par.features_innate if dfn_.scalar_feature_exists(f)
+                    and np.isfinite(np.asarray(par[f][:], dtype=float)).all()]
+            if cand:
+                f0 = str(rng.choice(cand))
+                vals = np.asarray(par[f0][:], dtype=float)
+                lo = float(np.quantile(vals, rng.uniform(0.1, 0.5)))
+                par.config["filtering"][f0 + " min"] = lo
+                par.config["filtering"][f0 + " max"] = float(vals.max()) + 1.0
+                ds.rejuvenate()
+                desc["hierarchy_history"] = ["manual exclusion", f"parent {f0} min", "refresh"]
+                ctx.count("hierarchy_sources_with_history")
         desc["child_len"] = len(ds)
     return ds, closers, desc
 
@@ -219,8 +239,12 @@ def run_case(ctx, idx):
                 chunk = max(10, int(chunk_bytes // max(1, item.size * (1 if f != "mask" else 1))))
                 break
         for rep in range(int(rng.integers(1, 3))):
-            m = gen_mask(rng, n, chunk)
-            set_mask(ds, m)
+            if rep == 0 and "hierarchy_history" in desc:
+                # export the member as the refresh left it (no further apply in between)
+                m = np.array(ds.filter.all, dtype=bool, copy=True)
+            else:
+                m = gen_mask(rng, n, chunk)
+                set_mask(ds, m)
             filtered = bool(rng.random() < 0.8)
             feats = [f for f in avail if rng.random() < 0.7] or avail[:1]
             if rng.random() < 0.3 and feats:
